@@ -314,6 +314,28 @@ fn sweeps(rep: &Report) {
             });
         }
     }
+    // unknown status words of every length and character width: an error, never a panic and never a success
+    for shift in 0..5usize {
+        for unit in ["x", "é", "€", "😀"] {
+            for target in [1usize, 8, 31, 32, 33, 40, 64, 255, 300] {
+                let mut w = "q".repeat(shift);
+                while w.len() < target { w.push_str(unit); }
+                rep.add("evaluations", 1);
+                let st = hs_status(&w);
+                let r = catch_unwind(AssertUnwindSafe(|| {
+                    let mut m = HandshakeStateMachine::new("a@b".into(), "p@h".into(), "c".into(), DistributionFlags::default(), 1u32);
+                    let _ = m.begin_connect();
+                    let _ = m.prepare_send_name();
+                    (m.handle_status(&st[..]).is_ok(), m.state() == ConnectionState::Connected)
+                }));
+                match r {
+                    Ok((false, false)) => {}
+                    Ok(_) => rep.violation("unknown status word accepted", json!({"status_bytes": w.len(), "unit": unit})),
+                    Err(_) => rep.violation("unknown status word makes the handshake code panic", json!({"status_bytes": w.len(), "unit": unit, "ascii_prefix": shift})),
+                }
+            }
+        }
+    }
     let ack = hs_ack(&[7u8; 16]);
     for cut in 0..ack.len() {
         rep.add("evaluations", 1);
